@@ -196,11 +196,24 @@ prop(
           "xor 0xFF) in the first / middle / last chunk of every (step family, sender): upgrade, multiply, duplicate multiply, "
           "propagate-u-w, reveal-r, check-zero, reveal. Oracle: honest runs validate and open a*b*a on all helpers; with a fault some honest "
           "helper must fail (Fp31: undetected runs counted against a binomial allowance for p = 2/31). distinct = (field, step family, "
-          "sender, position class, pattern class). adaptive adversary: eps on the [a*b] message and r_old*eps on the [r*a*b] message of a record, with r_old the MAC key that the validation of another batch has opened (2-3 batches of 2/4/16 records, every helper as attacker): must be rejected, the MAC key has to be per batch"),
-    assumptions=["detection failure probability <= 2/|F| per run is ignored for the 32-bit and 255-bit fields"],
+          "sender, position class, pattern class). adaptive adversary: eps on the [a*b] message and r_old*eps on the [r*a*b] message of a record, with r_old the MAC key that the validation of another batch has opened (2-3 batches of 2/4/16 records, every helper as attacker): must be rejected, the MAC key has to be per batch. "
+          "rushing adversary (verif_c04_rushing_attack): the corrupt helper A is a deviating party written in the harness (crate contexts, PRSS, "
+          "send/receive channels at the real gates and record ids; multiplication and accumulator arithmetic re-implemented), its neighbours L and R "
+          "run the unmodified validator/upgrade/multiply/validate_record path; per case (attacker in 3) x (records per batch 2/4/16) x (target "
+          "first/middle/last of its batch) x (1-3 batches, seeded target batch) x seeded field Fp32BitPrime/Fp31 x honest helpers batch-by-batch or "
+          "one try_join: A withholds the [a*b] and [r*a*b] messages of the target record (and the later records of that ordered channel) towards L, "
+          "sends its honest (u,w) to R, waits for R's share of the SAME batch's r on validate/reveal_r, then sends the withheld messages with +eps / "
+          "+r*eps; 'A knows r' is a data dependency on a message received on A's own channel (no interceptor writes; a passive tap only confirms the "
+          "delivery order). Verdict classes: both honest helpers Ok and their shares reconstruct to != a*b => violation rushing_tamper_accepted; an "
+          "honest Err => rushing_attack_detected; A parked on the receive of R's share with the system quiescent => rushing_attack_not_mountable "
+          "(the barrier exists). Controls on the same schedule: eps = 0 must validate with the right product, +(r+1)*eps must be rejected (Fp32BitPrime)"),
+    assumptions=["detection failure probability <= 2/|F| per run is ignored for the 32-bit and 255-bit fields",
+                 "rushing adversary: only attacks a network adversary can mount are claimed (A delays and alters its own messages and reads messages addressed to it); "
+                 "a stall of the honest helpers under attack is counted (rushing_attack_stalled), not judged"],
     shards={"quick": 16, "thorough": 16},
     min_evaluations={"quick": 150, "thorough": 1500},
-    must_see=[("deviation_detected", 100), ("step_families_faulted", 20), ("honest_runs_validated_and_opened", 5), ("lane_attack_detected", 5), ("reveal_flavours_faulted", 6), ("altered_copy_rejected", 30), ("opened_key_attack_detected", 40), ("opened_key_honest_controls_accepted", 8)],
+    must_see=[("deviation_detected", 100), ("step_families_faulted", 20), ("honest_runs_validated_and_opened", 5), ("lane_attack_detected", 5), ("reveal_flavours_faulted", 6), ("altered_copy_rejected", 30), ("opened_key_attack_detected", 40), ("opened_key_honest_controls_accepted", 8),
+              ("rushing_attack_decided", 60), ("rushing_controls_decided", 30)],
     watchdog_s={"quick": 1200, "thorough": 7200},
 )
 
@@ -636,7 +649,7 @@ TECHNIQUE = {
     "C01": "runtime differential monitoring: real hybrid_protocol on 3xS in-memory helpers vs independent plaintext reference; hangs decided by paused-clock quiescence; shuttle schedules; H5 stage log classifies failures",
     "C02": "runtime fault injection: one sender's chunk altered through the stream interceptor on a replayed deterministic execution; outcome oracle (abort / honest shares determine reference result)",
     "C03": "runtime fault enumeration on recorded and transmitted multiplication bits against a reference three-party multiplication model; real Batch::validate on three helpers",
-    "C04": "runtime additive-fault injection on MAC-protected protocols (incl. coordinated cross-lane attack and every malicious opening flavour); binomial allowance for Fp31",
+    "C04": "runtime additive-fault injection on MAC-protected protocols (incl. coordinated cross-lane attack, every malicious opening flavour, adaptive opened-key and rushing deviating-party attacks); binomial allowance for Fp31",
     "C05": "runtime multiset / share-consistency oracle on sharded shuffles plus fault injection on tables and held rows",
     "C06": "runtime equality/inequality checks on three PRSS endpoints plus offline checker over the hook-H5 log of every PRSS draw (no reuse, no collision)",
     "C07": "runtime differential monitoring of every circuit against plaintext reference functions (exhaustive for small widths, 256 lanes per run)",
